@@ -66,12 +66,7 @@ Definition basename (p : bytes) : bytes := rev (take_while (fun b => negb (b =? 
    WCOLL_PATHBUF-byte buffer: a name that fills it is left without terminator), others are looked
    up in the directory of the file named on the command line (snprintf, must fit, access R_OK) *)
 Definition as_is (name : bytes) : bool :=
-  match name with
-  | 47 :: _ => true
-  | 46 :: 47 :: _ => true
-  | 46 :: 46 :: 47 :: _ => true
-  | _ => false
-  end.
+  is_prefix [47] name || is_prefix [46;47] name || is_prefix [46;46;47] name.
 Inductive rpath := PathOk (p : bytes) | PathNone | PathFault.
 Definition resolve (fs : fsys) (dir name : bytes) : rpath :=
   if as_is name then
@@ -99,8 +94,7 @@ Variable dir : bytes.
 Inductive line_act := LExpr (e : option bytes) | LWarn | LInclude (path : bytes) | LFatal | LFault.
 Definition line_action (buf : bytes) : line_act :=
   let line := cstr buf in
-  match line with
-  | 35 :: _ =>
+  if is_prefix [35] line then                       (* the first '#' is the first byte *)
     match include_file line with
     | Some (Some name) =>
         match resolve fs dir name with
@@ -111,8 +105,7 @@ Definition line_action (buf : bytes) : line_act :=
     | Some None => LWarn
     | None => LExpr None
     end
-  | _ => LExpr (line_expr line)
-  end.
+  else LExpr (line_expr line).
 
 (* the effect of one line given what a nested read would give *)
 Definition line_result (nested : list bytes -> list bytes -> rres) (cache : list bytes) (buf : bytes) : rres :=
